@@ -21,6 +21,11 @@ namespace micm
     BackwardEulerTemporaryVariables& operator=(BackwardEulerTemporaryVariables&& other) = default;
     ~BackwardEulerTemporaryVariables() = default;
 
+    std::unique_ptr<TemporaryVariables> Clone() const override
+    {
+      return std::make_unique<BackwardEulerTemporaryVariables>(*this);
+    }
+
     BackwardEulerTemporaryVariables(const auto& state_parameters)
         : Yn_(state_parameters.number_of_grid_cells_, state_parameters.number_of_species_),
           forcing_(state_parameters.number_of_grid_cells_, state_parameters.number_of_species_)
